@@ -1,4 +1,5 @@
 import BeffVerif.Props.C02
+import BeffVerif.Props.C02Sound
 open BeffVerif.C02
 #print axioms valid_type_only
 #print axioms typeof_exact
@@ -10,3 +11,16 @@ open BeffVerif.C02
 #print axioms tuple_schema_has_minItems
 #print axioms template_schema_pattern
 #print axioms required_undefined_accepting_prop
+#print axioms BeffVerif.C02E.valid_mono
+#print axioms BeffVerif.C02F.lookup_setProp
+#print axioms BeffVerif.C02F.valid_annotate
+#print axioms BeffVerif.C02F.valid_tuple_true
+#print axioms BeffVerif.C02F.valid_object_true
+#print axioms BeffVerif.C02F.rnb_sem
+#print axioms BeffVerif.C02F.validate_null_undef
+#print axioms BeffVerif.C02F.propsS_spec
+#print axioms BeffVerif.C02F.good_core
+#print axioms BeffVerif.C02F.validate_frag_answers
+#print axioms BeffVerif.C02F.schema_sound_frag
+#print axioms BeffVerif.C02F.validate_frag_no_throw
+#print axioms BeffVerif.C02F.fragment_example
